@@ -290,6 +290,18 @@ type Obs struct {
 	CErr    string `json:"cerr"` // informational
 	SErr    string `json:"serr"`
 	WireSrv int    `json:"wire_suite"` // cipher suite in the ServerHello on the wire (0 if none)
+	CTypes  []int  `json:"ctypes"`     // handshake message types the client consumed, in order (read hook)
+	STypes  []int  `json:"stypes"`     // ... and the server
+}
+
+func readTypes(evs []Ev) []int {
+	out := []int{}
+	for _, e := range evs {
+		if e.Read {
+			out = append(out, e.Typ)
+		}
+	}
+	return out
 }
 
 func countReads(evs []Ev) int {
@@ -306,7 +318,8 @@ func countReads(evs []Ev) int {
 func Observe(r *Result) Obs {
 	o := Obs{CDone: r.C.Done, SDone: r.S.Done, CPanic: r.C.Panic != "", SPanic: r.S.Panic != "",
 		CHang: r.C.Hang, SHang: r.S.Hang, CErr: r.C.Err, SErr: r.S.Err,
-		CRead: countReads(r.C.Events), SRead: countReads(r.S.Events), Canary: "nosh"}
+		CRead: countReads(r.C.Events), SRead: countReads(r.S.Events), Canary: "nosh",
+		CTypes: readTypes(r.C.Events), STypes: readTypes(r.S.Events)}
 	if r.C.Panic != "" {
 		o.CErr = "panic: " + r.C.Panic
 	}
